@@ -1203,28 +1203,25 @@ def check_cutoff_pairing(chk, prog, targets, rule="cutoff-pair"):
                     if v["other"] != d["other"]:
                         problems.append((d, "`%s` runs under %s but `%s` under %s" % (
                             pf.src(v["stmt"]), sorted(v["other"]), pf.src(d["stmt"]), sorted(d["other"]))))
-                    elif any(a.same(mv) for a in md.alts) and len(mv.alts) == 1:
-                        pass  # the derivative is cut (at least) exactly where the value is cut
-                    elif any(a.cutoff != mv.cutoff or a.source != mv.source for a in md.alts) or len(mv.alts) > 1:
+                    elif all(any(x.same(y) for y in mv.alts) for x in md.alts) \
+                            and all(any(x.same(y) for y in md.alts) for x in mv.alts):
+                        pass  # the derivative is cut exactly where the value is cut
+                    elif any(a.cutoff != mv.cutoff or a.source != mv.source for a in md.alts):
                         problems.append((d, "value mask `%s` and derivative mask `%s` are built from different "
                                             "densities or cutoffs" % (
                                                 " | ".join(a.text for a in mv.alts), " | ".join(a.text for a in md.alts))))
-                    elif not mv.summed and all(a.summed for a in md.alts):
-                        problems.append((d, "the value is zeroed per spin channel (`%s`) but the derivative only "
-                                            "where the spin-summed density is below the cutoff (`%s`): points with "
-                                            "zeroed value keep a derivative" % (mv.text, md.text)))
-                    elif not (mv.red == "sum" and mv.scale == "1"
-                              and any(a.red == "none" and a.scale == "1" for a in md.alts)):
-                        problems.append((d, "the derivative mask `%s` does not contain the value mask `%s` (no "
-                                            "disjunct of it is the value mask, and it is not the unscaled per-spin "
-                                            "form of a summed mask): some points where the value is zeroed keep a "
-                                            "derivative" % (" | ".join(a.text for a in md.alts), mv.text)))
-                    elif mv.summed and not md.summed:
-                        chk.note(rule, "%s:%s" % (rel, where),
-                                 "mode %s: value zeroed where the summed density < cutoff (`%s`), derivative zeroed "
-                                 "per spin channel (`%s`); for non-negative densities the latter contains the "
-                                 "former, so every zeroed value has a zeroed derivative, but a channel below "
-                                 "the cutoff loses its derivative while the value is kept" % (mode, mv.text, md.text))
+                    elif not any(any(x.same(y) for y in md.alts) for x in mv.alts):
+                        problems.append((d, "the derivative mask `%s` does not contain the value mask `%s`: some "
+                                            "points where the value is zeroed keep a derivative (a per-spin mask is not "
+                                            "the spin-summed mask)" % (" | ".join(a.text for a in md.alts),
+                                                                       " | ".join(a.text for a in mv.alts))))
+                    else:
+                        extra = [x for x in md.alts if not any(x.same(y) for y in mv.alts)]
+                        problems.append((d, "the derivative is also zeroed under `%s`, where the value `%s` is kept "
+                                            "(it is only cut under `%s`): at such points the returned derivative is "
+                                            "not the gradient of the returned value" % (
+                                                " | ".join(a.text for a in extra), v["root"],
+                                                " | ".join(a.text for a in mv.alts))))
             # spin granularity: where the value is still resolved per spin channel when it is zeroed (it is
             # summed over the spin axis only afterwards, in this mode), the density compared with the cutoff
             # must be the channel's own density
